@@ -8,13 +8,15 @@ snippets once more as C):
   samples/*/*.c*; test/cfg/*.c* with their library and --check-library; test/cli/fuzz-crash, fuzz-crash_c,
   fuzz-timeout (per-batch timeout, crashing / hanging inputs are bisected out and counted, they are not this
   property's business); every code snippet mechanically extracted from the string literals of check("...")-style
-  calls in test/test*.cpp (vlib/testsnippets.py), MANY files per cppcheck process; a hand-made list of
-  preprocessor / tokenizer / run-level triggers with their options.
+  calls in test/test*.cpp (vlib/testsnippets.py), MANY files per cppcheck process; two generated families
+  (vlib/c27c28_families.py: multi-severity constructs x literal kinds, and value-dependent checker triggers x
+  provenance of the critical value x operand type, as C++ and as C); a hand-made list of preprocessor / tokenizer /
+  run-level triggers with their options.
 This check is only as strong as its corpus: an id that no corpus input triggers is not judged.
 """
 import glob, os, re, time
 import xml.etree.ElementTree as ET
-from vlib import build, run, testsnippets
+from vlib import build, run, testsnippets, c27c28_families
 from vlib.core import Ctx, pmap
 
 REPO = build.REPO
@@ -237,6 +239,15 @@ def main(tier, replay=None):
             cn = ["c%05d.c" % i for i in range(len(snippets))]
             for i in range(0, len(cn), per):
                 tasks.append(("snippets-as-C", [], cn[i:i + per], ws.dir, 2))
+        # generated families: multi-severity constructs x literal kinds, value-dependent triggers x provenance x type
+        for fam, gen in (("multi-severity", c27c28_families.multi_severity_files), ("provenance", c27c28_families.provenance_files)):
+            for lang in ("cpp", "c"):
+                gf = gen(lang)
+                for n, c in gf.items():
+                    ws.write(os.path.join("gen", n), c)
+                gn = sorted(gf)
+                for i in range(0, len(gn), 24):
+                    tasks.append(("generated:" + fam, [], gn[i:i + 24], os.path.join(ws.dir, "gen"), 20))
         # handmade
         for name, files, opts, cl in handmade():
             for f, c in files.items():
@@ -279,6 +290,9 @@ def main(tier, replay=None):
         m = re.match(r"^[sc](\d{5})\.c(pp)?$", f or "")
         if m:
             sources = {f: snippets[int(m.group(1))][1]}
+        elif part.startswith("generated:"):
+            gen = c27c28_families.multi_severity_files if "multi" in part else c27c28_families.provenance_files
+            sources = {f: gen("cpp" if f.endswith(".cpp") else "c").get(f, "")}
         elif part.startswith("handmade:"):
             sources = {n: (c.decode("latin-1") if isinstance(c, bytes) else c)
                        for name, files, o, cl in handmade() if name == part[9:] for n, c in files.items()}
@@ -318,8 +332,13 @@ def main(tier, replay=None):
         rule="exhaustive over a fixed corpus: samples (all files), test/cfg/*.c* (with library; once with --check-library, "
              "once with --inline-suppr), test/cli/fuzz-crash|fuzz-crash_c|fuzz-timeout (20 files per process, crashing or "
              "hanging inputs bisected out), every snippet extracted from test/test*.cpp string literals (300 files per "
-             "process%s), %d hand-made preprocessor/tokenizer/run-level triggers; options %s%s; evaluations = input files "
+             "process%s), two generated families as C++ and C (construct x literal-kind alphabet incl. all pairs: %d functions; "
+             "value-dependent trigger x value provenance x operand type: %d functions), %d hand-made preprocessor/tokenizer/run-level triggers; options %s%s; evaluations = input files "
              "analysed; distinct/nontrivial = distinct finding ids observed.  THE CHECK IS ONLY AS STRONG AS THIS CORPUS: "
              "ids no input triggers are not judged"
-             % ("; thorough: also as .c" if tier == "thorough" else "", len(handmade()), " ".join(BASE),
+             % ("; thorough: also as .c" if tier == "thorough" else "",
+                sum(v.count("\nlong ") for l in ("cpp", "c") for v in c27c28_families.multi_severity_files(l).values()),
+                sum(v.count("\nlong ") + v.count("\nstatic long ") for l in ("cpp", "c")
+                    for v in c27c28_families.provenance_files(l).values()),
+                len(handmade()), " ".join(BASE),
                 "" if tier == "quick" else " and a second pass with --check-level=exhaustive"))
